@@ -3,6 +3,7 @@ package engine
 import (
 	"fmt"
 	"hash/fnv"
+	"path/filepath"
 	"sort"
 
 	"verifsim/simdisk"
@@ -90,6 +91,14 @@ func histories(r *Run) {
 	} else {
 		r.Probe("par2-walk")
 	}
+	if w.Par1 && worldID < 0 && t.Bool(1, 10, "as-many-volumes-as-possible") {
+		// the highest volume count the format's numbering allows
+		w.R = 99
+		if 256-len(w.Files) < w.R {
+			w.R = 256 - len(w.Files)
+		}
+		r.Probe("par1-maximal-volume-count")
+	}
 	var cre *OpResult
 	if w.Par1 {
 		cre = r.Create1(w, w.Index, w.FilePaths(), nil)
@@ -101,6 +110,7 @@ func histories(r *Run) {
 		r.Violate("create-failed", "Create failed on a valid set: %v", cre.Err)
 	}
 	w.RecordCreated(r, cre)
+	_ = 0
 	if w.Par1 && worldID < 0 && t.Bool(1, 6, "foreign-writer") {
 		w.RewriteAsForeignPar1(r)
 	}
@@ -141,7 +151,20 @@ func histories(r *Run) {
 		case 2:
 			name = "delete-recovery"
 			rec := w.RecoveryPaths()
-			if len(rec) > 0 {
+			if len(rec) > 1 && t.Bool(1, 5, "all-but-one") {
+				// every recovery file but one is lost (the first, the last - the
+				// highest-numbered one - or any other)
+				sort.Strings(rec)
+				keep := []int{0, len(rec) - 1, t.Draw(len(rec), "keep-any")}[t.Draw(3, "keep")]
+				for i, p := range rec {
+					if i != keep {
+						w.Disk.Remove(p)
+					}
+				}
+				r.Logf("all recovery files lost except %s", filepath.Base(rec[keep]))
+				r.Count("damage:delete-recovery-file")
+				r.Probe("all-but-one-recovery-file-lost")
+			} else if len(rec) > 0 {
 				p := rec[t.Draw(len(rec), "which")]
 				w.Disk.Remove(p)
 				r.Logf("recovery file %s lost", p)
